@@ -70,12 +70,30 @@ var c11HelpFirst bool // per leaf: WriteHelp is called on the parser before the 
 
 var c11EditedChoices []string // per leaf: the option was declared with these choices, used once, and then given cd's choices through Option.Choices
 
+var c11TagChoices []string // per leaf: the struct tag declares these choices; the program assigns cd's choices to Option.Choices before the first use
+
+var c11RejectedFirst bool // per leaf: the same parser has been given a value outside the choices before (and has rejected it)
+
 func c11Run(cd *c11Decl, path int, text string) (bool, reflect.Value, error, bool) {
+	oracle := cd
+	if c11TagChoices != nil {
+		cd = c11Get(cd.opt.Type, 10, c11TagChoices)
+	}
 	b := cd.d.BuildTags()
 	if b.Err != nil {
 		return false, reflect.Value{}, b.Err, true
 	}
 	p := b.Parser
+	if c11TagChoices != nil {
+		p.FindOptionByLongName("val").Choices = append([]string(nil), oracle.opt.Choices...)
+	}
+	if c11RejectedFirst {
+		_, err := p.ParseArgs([]string{"--val=certainly-not-a-choice"})
+		if fe, ok := err.(*flags.Error); !ok || fe.Type != flags.ErrInvalidChoice {
+			return false, reflect.Value{}, fmt.Errorf("earlier parse with a value outside the choices: %v", err), true
+		}
+		b.Vals[cd.opt].Set(reflect.Zero(b.Vals[cd.opt].Type()))
+	}
 	if c11EditedChoices != nil {
 		o := p.FindOptionByLongName("val")
 		final := o.Choices
@@ -467,11 +485,26 @@ func init() {
 			}
 			path := []int{c11PathInline, c11PathSeparate, c11PathDefault, c11PathEnv}[c.Choose(4)]
 			c11EditedChoices = nil
-			if c.Bool() && (path == c11PathInline || path == c11PathSeparate) {
-				// the same option first carried another choice set (sharing one member) and was used once with it
-				c11EditedChoices = [][]string{{"cat", "bird"}, {"10", "2"}, {"c", "zzz"}, {"ro", "x"}, {"c7", "c9"}, {"only", "other"}}[si]
-				defer func() { c11EditedChoices = nil }()
+			other := [][]string{{"cat", "bird"}, {"10", "2"}, {"c", "zzz"}, {"ro", "x"}, {"c7", "c9"}, {"only", "other"}}[si]
+			prior := c.Choose(4)
+			if path != c11PathInline && path != c11PathSeparate {
+				prior = 0
 			}
+			switch prior {
+			case 1:
+				// the same option first carried another choice set (sharing one member) and was used once with it
+				c11EditedChoices = other
+				defer func() { c11EditedChoices = nil }()
+			case 2:
+				// the same parser has rejected a value outside the choices before
+				c11RejectedFirst = true
+				defer func() { c11RejectedFirst = false }()
+			case 3:
+				// the struct tag declares the other set; the program assigns this one to Option.Choices before the first use
+				c11TagChoices = other
+				defer func() { c11TagChoices = nil }()
+			}
+			c.Hit(fmt.Sprintf("choices-prior=%d", prior))
 			// the help text is rendered before the value is given (rendering must not touch the declared choices)
 			c11HelpFirst = c.Bool()
 			defer func() { c11HelpFirst = false }()
@@ -492,10 +525,10 @@ func init() {
 		Rule: "(i) every value of int8/uint8/int16/uint16 plus two out-of-range neighbours on each side, rendered in every base 2..36 in both letter cases; " +
 			"(ii) min-1,min,min+1,-1,0,1,max-1,max,max+1,2^64,2^128,-2^63,-2^63-1 for int/int16/int32/int64/uint/uint16/uint32/uint64 in bases 10,2,8,16,36, with and without a leading zero, through 6 paths (--val=V, --val V, default tag, environment, positional, INI entry); " +
 			"(iii) every string of length <= 4 over {0 1 9 a f z - + . e x _ space I n :} for 13 types x bases 10,2,16,36 (thorough: also via default tag and positional); (iv) 56 float rounding/limit/spelling witnesses x sign x float32/float64 x 6 paths; " +
-			"(v) choice sets (incl. a member containing a comma, a set of seven and a set of one; also: the help text rendered first; also: a different set first, one use, then the set edited through Option.Choices) x near-miss values (prefix, suffix, case, padding, leading zero/plus) x 4 paths; (vi) lists in an environment variable split on env-delim {',', ';;'} for []int, []string, map[string]int, []uint8: 8 piece patterns with empty, blank-padded and unconvertible pieces (every piece is a value of the element type: an empty piece is an element of a []string and a fault for a number); (viii) a func(string) option with choices x 7 values x 2 spellings (the callback runs only for members); (vii) INI values that look as if they ended in a comment (80 #1, a ; b ...) for uint16, int, string; (ii), (iv) and (v) also with IgnoreUnknown set on the parser; oracle: own digit parser + math/big (integers), big.Rat nearest-even (floats), three classes must-accept / must-reject / grey; " +
+			"(v) choice sets (incl. a member containing a comma, a set of seven and a set of one; also: the help text rendered first; also: a value outside the choices rejected by the same parser first; also: another set declared by the tag and this set assigned to Option.Choices by the program before the first use; also: a different set first, one use, then the set edited through Option.Choices) x near-miss values (prefix, suffix, case, padding, leading zero/plus) x 4 paths; (vi) lists in an environment variable split on env-delim {',', ';;'} for []int, []string, map[string]int, []uint8: 8 piece patterns with empty, blank-padded and unconvertible pieces (every piece is a value of the element type: an empty piece is an element of a []string and a fault for a number); (viii) a func(string) option with choices x 7 values x 2 spellings (the callback runs only for members); (vii) INI values that look as if they ended in a comment (80 #1, a ; b ...) for uint16, int, string; (ii), (iv) and (v) also with IgnoreUnknown set on the parser; oracle: own digit parser + math/big (integers), big.Rat nearest-even (floats), three classes must-accept / must-reject / grey; " +
 			"distinct = distinct (type, base, class, accepted?, stored value)",
 		Assumptions:  []string{"duration syntax is Go's time.ParseDuration (trusted)", "bool spellings other than true/false, a leading '+', inf/nan/hex-float/underscore spellings are grey: acceptance not asserted, exactness is"},
-		RequiredHits: []string{"must-accept", "must-reject", "grey", "not-a-choice"},
+		RequiredHits: []string{"must-accept", "must-reject", "grey", "not-a-choice", "choices-prior=1", "choices-prior=2", "choices-prior=3"},
 		Bound:        [2]string{"strings <= 4 via --val=V; full value range of 8- and 16-bit types in all bases", "strings <= 4 through 3 paths; full value range of 8- and 16-bit types in all bases"},
 		BudgetS:      [2]int{170, 1500},
 	})
